@@ -143,6 +143,8 @@ def run(ctx, res):
                 problems.append('the snippet does not show source line %d' % m['pos'][0])
         if m['pos'] and m['pos'] != (1, 1):
             nontriv.add(text)
+        if not problems:
+            res.traces_validated += 1
         if problems:
             cls = None
             # known mechanism: an escape earlier in the file resets the position counter
@@ -153,7 +155,6 @@ def run(ctx, res):
             res.samples.append(dict(planted=m['kind'], shell=m['shell'], grammar=text.decode('latin-1')[:300], expected=m['pos'],
                                     first_line=b['stderr'].split(b'\n')[0].decode('latin-1')))
     res.nontrivial = len(nontriv)
-    res.traces_validated = res.evaluations
     res.extra['cases_per_kind'] = per
     render_tie(res, meta, bins)
 
